@@ -361,6 +361,16 @@ def m_vec_new(ex, callee, args):
     return VecV([])
 
 
+@model(r'^(std::vec::|alloc::vec::)?from_elem::<.*>$')
+def m_vec_from_elem(ex, callee, args):
+    # vec![x; n] with a concrete n
+    n = args[1]
+    n = n.v if isinstance(n, BV) else n
+    if not isinstance(n, int):
+        n = ex.concretize(args[1], list(range(0, 9)), 'vec![x; n] length')
+    return VecV([clone_val(args[0]) for _ in range(n)])
+
+
 @model(r'^Vec::<.*>::push$')
 def m_vec_push(ex, callee, args):
     v = vec_of(args[0])
